@@ -839,6 +839,17 @@ func c20MixRound(run *common.Run, ch *c20Child, round int, scenario int) (int, s
 				return nil
 			}
 		}
+		if n%3 > 0 {
+			// the client has stopped reading a scan that still has megabytes to deliver (the server is blocked in
+			// Send by flow control): a write to the same table must go through meanwhile
+			wctx, wcancel := context.WithTimeout(ctx, 30*time.Second)
+			_, werr := data.MutateRow(wctx, &btpb.MutateRowRequest{TableName: tname, RowKey: []byte("a00001"), Mutations: drive.MutsToProto([]model.Mut{{Kind: model.SetCell, Fam: "f1", Qual: "stall", TS: 3000, Val: "w"}})})
+			wcancel()
+			if status.Code(werr) == codes.DeadlineExceeded {
+				hang.Store("a write to the table was not answered within 30 s while another client had stopped reading its scan of that table")
+			}
+			run.Count("writes_answered_while_a_scan_client_was_not_reading", 1)
+		}
 		run.Count("scans_abandoned_by_the_client", 1)
 		return nil // the deferred cancel abandons the stream
 	})
